@@ -340,24 +340,36 @@ def rule_type(prog, rep):
             rep.finding("C10.TYPE", fs[0].name, "template:" + v, "Display for Type::%s writes `%s` (payload bound: %s), expected `%s`" % (v, pieces, arg_ok, w), fs[0].loc(arm.get("l")))
     # from_cst: NamedType -> Named, ListType -> List, NonNullType(named) -> NonNullNamed, NonNullType(list) -> NonNullList
     cv = prog.fn(r"<apollo_parser::cst::Type as apollo_compiler::ast::from_cst::Convert>::convert$")
-    body = prog.hir_body(cv)["body"]
-    m = find_single_match(body)
-    if m is None:
-        raise Undecided("Convert for cst::Type is not a single match")
-    def ctors(node):
-        out = []
-        for n in walk(node):
-            if n.get("k") == "call" and n.get("callee") and n["callee"][0] == "def" and n["callee"][1].startswith("ctor") and len(n["callee"]) > 4 and "ast::Type::" in n["callee"][4]:
-                out.append(n["callee"][4].split("::")[-1])
-        return out
-    exp = {"NamedType": ["Named"], "ListType": ["List"], "NonNullType": ["NonNullNamed", "NonNullList"]}
-    for v, w in exp.items():
-        i = first_match(m["arms"], lambda p: pat_matches_variant(p, v))
-        got = ctors(m["arms"][i]["body"])
-        if got == w:
-            rep.instance("C10.TYPE", "from_cst: cst::Type::%s -> %s" % (v, "/".join(w)))
+    # Path table of the conversion: every path that returns Some(ast::Type::V{..}) is read as
+    # (V, the cst accessors its payload comes from, the cst variant of self).  The table does not
+    # depend on how the function spells the decision (match arms returning Some, Some(match ..),
+    # if-let chains, `?`).
+    from ..tables import enum_paths, return_value_on_path
+    rows = {}
+    for atoms, rb, path in enum_paths(cv):
+        val = return_value_on_path(cv, path) or ""
+        mm = re.match(r"Option::Some\{Type::(\w+)\{(.*)\}\}$", val)
+        if not mm:
+            if val.startswith("Option::Some"):
+                rows.setdefault(("?", val[:120]), 0)
+            continue
+        chain = tuple(re.findall(r"(NamedType::name|ListType::ty|NonNullType::named_type|NonNullType::list_type)\(", mm.group(2)))
+        roots = tuple(sorted(set(re.findall(r"arg1\.as:(\w+)\.0", mm.group(2)))))
+        rows[(mm.group(1), chain, roots)] = rows.get((mm.group(1), chain, roots), 0) + 1
+    exp = {
+        ("Named", ("NamedType::name",), ("NamedType",)): "cst::Type::NamedType -> Named(name)",
+        ("List", ("ListType::ty",), ("ListType",)): "cst::Type::ListType -> List(item type)",
+        ("NonNullNamed", ("NamedType::name", "NonNullType::named_type"), ("NonNullType",)): "cst::Type::NonNullType(named) -> NonNullNamed(name)",
+        ("NonNullList", ("ListType::ty", "NonNullType::list_type"), ("NonNullType",)): "cst::Type::NonNullType(list) -> NonNullList(item type)",
+    }
+    for k, d in exp.items():
+        if k in rows:
+            rep.instance("C10.TYPE", "from_cst: " + d)
         else:
-            rep.finding("C10.TYPE", cv.name, "from_cst:" + v, "cst::Type::%s converts to %s, expected %s" % (v, got, w), cv.loc())
+            rep.finding("C10.TYPE", cv.name, "from_cst:" + k[0], "no path of Convert for cst::Type builds ast::Type::%s from %s of a cst::Type::%s (rows: %s)" % (k[0], "/".join(k[1]), k[2][0], sorted(map(str, rows))), cv.loc())
+    for k in rows:
+        if k not in exp:
+            rep.finding("C10.TYPE", cv.name, "from_cst-extra:" + str(k[0]), "Convert for cst::Type has a path that builds %s, which is not one of the four wrappers of the grammar" % (k,), cv.loc())
 
 
 def rule_numfmt(prog, rep):
